@@ -158,6 +158,9 @@ class DB:
             body = ''.join(p + s for p, s in zip(pieces, seps))
         else:
             body = ' '.join(toks)
+        for dl, dt in getattr(self, 'decoys', []):
+            # another provable statement carrying the very same proof text (over other variables)
+            out.append('%s $p |- %s $= %s $.' % (dl, tshow(dt), body))
         out.append('%s $p |- %s $= %s $.' % (tl, tshow(tt), body))
         return '\n'.join(out) + '\n'
 
